@@ -30,7 +30,25 @@ BASELINE_MISSED = {"C02-2": "C02 now sets stream trailers that share keys with t
  "C16r3-1": "WithInterceptors groups optionally are sub-slices list[a:b] of one backing array with spare capacity (enumeration and random trees)",
  "C17r3-2": "keyword-like names in every casing (GO, IF, tYpE) and leading initialisms (HTTPGet next to HttpGet); the checker now finds a method's client field from the method body instead of by case-insensitive name (it had confused GOTO with Goto)",
  "C18r3-1": "binary-header values of every length: enumerated sweep 0..4096 (thorough 0..70000) and random lengths up to 64 KiB (the generator had stopped at 64 bytes); C11 -Bin values up to 1.5 KB",
- "C19r3-3": "panic point 'after the handler's context has ended' (propagated client deadline in virtual time)"}
+ "C19r3-3": "panic point 'after the handler's context has ended' (propagated client deadline in virtual time)",
+ "C03r4-2": "response class 'HTTP error page' (non-200 text/plain, HTML or JSON bodies) delivered under every segmentation incl. EOF together with the last bytes",
+ "C04r4-2": "request-side fault injection now also for unary / server-stream calls, and the transport's Do error may wrap io.EOF (net/http's 'Post …: EOF')",
+ "C05r4-2": "handler programs may send a response message that no codec can marshal (invalid UTF-8): the response must still be a well-formed failure with exactly the earlier messages",
+ "C06r4-1": "metadata-casing sub-check: the same field arrives in two casings with different values; both belong to one field",
+ "C07r4-1": "empty / blank bodies as undecodable JSON documents for unary Connect",
+ "C07r4-2": "compressed-flag-without-header fault now also with a really compressed payload while the client advertises that algorithm for the response",
+ "C08r4-2": "accept lists contain explicitly refused entries (gzip;q=0)",
+ "C09r4-1": "allocation probes with a lying Content-Length (8 MiB − 1, 2 GiB) for unary Connect on both sides",
+ "C09r4-2": "bombs through a user-registered run-length codec with an unbounded ratio (a dozen bytes on the wire), limits of 100000 and 1 MiB",
+ "C10r4-2": "zero timeouts generated explicitly; if user code runs on a zero timeout its context must carry that (expired) deadline",
+ "C12r4-2": "custom codec names with upper-case letters",
+ "C13r4-1": "new sub-check retained-values: 2..6 calls through one client against scripted (also defective) responses; every error/header/trailer/message handed out is compared with its snapshot after the later calls",
+ "C13r4-2": "bidi calls that the handler fails right after the first message while the client's sender goroutine still sends 30 more (race detector)",
+ "C14r4-1": "cancel family may cancel before the call has done anything (then the first operation is a Send or CloseRequest)",
+ "C14r4-2": "typed family: a handler of another RPC kind answers a single-response call with 2–3 messages; the call must end, close the body and leave no goroutine",
+ "C16r4-2": "the shared option values are applied elsewhere behind a shorter prefix; one option value may be listed twice",
+ "C17r4-2": "package names starting with h/t/p/s (store.v1, payments.v1, test.http.v2, s, https)",
+ "C19r4-1": "the panic may be raised by an interceptor declared after WithRecover (nested inside it)"}
 rows = []
 for d in sorted(glob.glob(os.path.join(ROOT, "seeded", "C*-*"))):
     name = os.path.basename(d)
@@ -45,6 +63,8 @@ for d in sorted(glob.glob(os.path.join(ROOT, "seeded", "C*-*"))):
         note = "round 2: " + note
     if "r3-" in name:
         note = "round 3: " + note
+    if "r4-" in name:
+        note = "round 4: " + note
     rows.append("| %s | %s | %s | %s | %s | %s |" % (name, summ, needs, "yes" if valid else "NO", ", ".join(det) or "**not detected**", note))
 table = "| seeded | change | needs | confirmed (applies, suite passes, demo fails/passes) | detected by `./verif check <prop>` | history |\n|---|---|---|---|---|---|\n" + "\n".join(rows)
 p = os.path.join(ROOT, "DESIGN.md")
